@@ -146,7 +146,8 @@ out = {}
 with repo.quiet():
     if %(alien_first)r:
         # the very first sampler of this process is one over other fragments with the same names
-        c16.make_sampler(dict(c, frag=c['frag'].replace('C', 'CC')), seed=5)
+        import re
+        c16.make_sampler(dict(c, frag=re.sub(r'(?<![\[A-Za-z#])C(?![a-zH\]])', 'CC', c['frag'])), seed=5)
     for s in (1, 2):
         for w in %(targets)r:
             try:
@@ -175,7 +176,8 @@ def seed_machine(config, hashseeds):
     if c['all_atom'] and not c['masses']:
         # a sampler over fragments with the SAME names but other structures (every aliphatic carbon doubled), built
         # without explicit masses: nothing it computes may reach the samplers constructed afterwards
-        alien = dict(c, frag=c['frag'].replace('C', 'CC'))
+        import re
+        alien = dict(c, frag=re.sub(r'(?<![\[A-Za-z#])C(?![a-zH\]])', 'CC', c['frag']))
         ops.append(('M',))
 
     def replay(hist):
